@@ -3,23 +3,29 @@ From TP Require Import Model.Prelude Extracted Model.Toxics Model.Timed Proofs.L
 
 Theorem C14_zero_never : forall D k, 0 <= k < D -> applies toxicity_cmp k 0 = false.
 Proof. exact zero_never. Qed.
+Print Assumptions C14_zero_never.
 
 Theorem C14_one_always : forall D k, 0 <= k < D -> applies toxicity_cmp k D = true.
 Proof. exact one_always. Qed.
+Print Assumptions C14_one_always.
 
 Theorem C14_whole_connection : forall sigma l l',
   sched_run l sigma = Some l' ->
   map (fun s => (s_tx s, s_eff s)) (l_stubs l') = map (fun s => (s_tx s, s_eff s)) (l_stubs l).
 Proof. exact whole_connection. Qed.
+Print Assumptions C14_whole_connection.
 
 Theorem C14_unaffected_is_noop : forall tx ps inq cap c1 c2 st,
   eff_tx (mkStub tx false st ps inq cap c1 c2) = TNoop.
 Proof. exact unaffected_is_noop. Qed.
+Print Assumptions C14_unaffected_is_noop.
 
 (** idealised measure (uniform draw over D equally likely values, toxicity m/D): exactly m of the
     D draws make the toxic apply. Uniformity and independence of math/rand are assumed. *)
 Theorem C14_measure_partial : forall m (D : nat), 0 <= m <= Z.of_nat D -> count_applies toxicity_cmp m D = m.
 Proof. exact measure_exact. Qed.
+Print Assumptions C14_measure_partial.
 
 Theorem C14_le_would_break_zero : applies TLe 0 0 = true.
 Proof. exact le_would_break_zero. Qed.
+Print Assumptions C14_le_would_break_zero.
